@@ -915,32 +915,8 @@ func run(c *mon.Ctx) {
 	c.StreamSeedless("cold-start-concurrent", 16, func(_ int, r *gen.Rand) {
 		curMut = "cold-start"
 		c.PersistInput("concurrent decoders in a fresh process", nil)
-		c.Concurrent("psi.NewPMT / scte35.NewSCTE35 / ebp / pes in a fresh process", 16, 64, r, func(q *gen.Rand) string {
-			pm := ref.PMT{Program: 1, CurrentNext: true, PCRPID: 0x100}
-			for k := 0; k < 8; k++ {
-				pm.Streams = append(pm.Streams, ref.ES{Type: q.Byte(), PID: 0x101 + k, Descs: []ref.Desc{{Tag: q.Byte(), Body: q.Bytes(q.Intn(8))}}})
-			}
-			if m, err := psi.NewPMT(append([]byte{0}, pm.Section()...)); err == nil && m != nil {
-				for _, es := range m.ElementaryStreams() {
-					_ = es.StreamTypeDescription()
-					_ = es.IsAudioContent()
-					for _, d := range es.Descriptors() {
-						_ = d.Format()
-					}
-				}
-				_ = fmt.Sprint(m)
-			}
-			sg := ref.GenSig(q, true)
-			if x, err := scte35.NewSCTE35(sg.Payload()); err == nil && x != nil {
-				_ = x.String()
-				x.UpdateData()
-			}
-			if x, err := ebp.ReadEncoderBoundaryPoint(seedEBP(q)); err == nil && x != nil {
-				_ = x.Data()
-			}
-			pes.NewPESHeader(seedPES(q))
-			return ""
-		})
+		// (the main goroutine waits for the others here: not a hang, so the blocked-forever detector is told)
+		c.ExternalWait(func() { coldStart(c, r) })
 	})
 	// ---- random mutation
 	for _, f := range formats {
@@ -1225,6 +1201,35 @@ func run(c *mon.Ctx) {
 		driveCLI(c, i, b)
 	})
 	noteMaxAlloc(c)
+}
+
+func coldStart(c *mon.Ctx, r *gen.Rand) {
+	c.Concurrent("psi.NewPMT / scte35.NewSCTE35 / ebp / pes in a fresh process", 16, 64, r, func(q *gen.Rand) string {
+		pm := ref.PMT{Program: 1, CurrentNext: true, PCRPID: 0x100}
+		for k := 0; k < 8; k++ {
+			pm.Streams = append(pm.Streams, ref.ES{Type: q.Byte(), PID: 0x101 + k, Descs: []ref.Desc{{Tag: q.Byte(), Body: q.Bytes(q.Intn(8))}}})
+		}
+		if m, err := psi.NewPMT(append([]byte{0}, pm.Section()...)); err == nil && m != nil {
+			for _, es := range m.ElementaryStreams() {
+				_ = es.StreamTypeDescription()
+				_ = es.IsAudioContent()
+				for _, d := range es.Descriptors() {
+					_ = d.Format()
+				}
+			}
+			_ = fmt.Sprint(m)
+		}
+		sg := ref.GenSig(q, true)
+		if x, err := scte35.NewSCTE35(sg.Payload()); err == nil && x != nil {
+			_ = x.String()
+			x.UpdateData()
+		}
+		if x, err := ebp.ReadEncoderBoundaryPoint(seedEBP(q)); err == nil && x != nil {
+			_ = x.Data()
+		}
+		pes.NewPESHeader(seedPES(q))
+		return ""
+	})
 }
 
 func min(a, b int) int {
